@@ -57,6 +57,7 @@ STRENGTHENED = {
     "C19-agent5-3": "MISSED at first (move labels were always (from, to) pairs); caught after arbitrary hashable move labels (None, bare targets, mixed) were generated",
     "C20-agent5-1": "would have been MISSED (at most 1000 elements, random unions); caught after union chains of 1200-4000 elements were added",
     "C20-agent5-2": "would have been MISSED (results were only read); caught after the `consume_components` operation (the caller empties what get_components / component_sizes returned) was added",
+    "C18-agent5-1": "MISSED at first (lattice and dyadic coordinates give spreads of exactly 0 or far above 1e-6); caught after nearly coincident geometry was added (lattice points moved by 2^-10..2^-24; customers strung along a ray with hair-width offsets and a multi-vehicle customer at the far end)",
     "C17-agent-3": "MISSED at first (only integer roll widths were generated); caught after fractional roll widths were added",
 }
 WHAT = {}
